@@ -47,7 +47,10 @@ def _only(draw, ctx, vars_):
 @st.composite
 def _case(draw, tier):
     cfg = _cfg()
-    nF = draw(st.sampled_from([1, 1, 2]))
+    # one case in eight is built around a disjunction whose second operand relates an UNSELECTED free variable to the
+    # universal one: which value of that variable makes the condition hold may differ from one universal value to the next
+    story = chance(draw, 1, 8)
+    nF = 2 if story else draw(st.sampled_from([1, 1, 2]))
     u = nF
     recs = draw_dataset(draw, cfg)
     n = len(recs)
@@ -56,12 +59,20 @@ def _case(draw, tier):
     for v in range(nF + 1):
         hi = min(4 if v == u else 4, n)
         size = draw(st.sampled_from(list(range(1, hi + 1)) + [hi, hi]))
+        if story and v >= 1:
+            size = max(size, min(hi, draw(st.sampled_from([2, 3, 3, 4]))))
         doms.append(list(draw(st.permutations(list(range(n))))[:size]))
     vars_ = [{"dom": v, "decl": draw(st.sampled_from(["let", "from"])), "type": "Ent"} for v in range(nF + 1)]
     frees = list(range(nF))
-    klass = draw(st.sampled_from(["both", "both", "both", "both", "only_u", "only_F", "const"]))
-    if klass == "both":
-        shape = draw(st.sampled_from(["leaf", "or", "and", "tree", "not"]))
+    klass = "both" if story else draw(st.sampled_from(["both", "both", "both", "both", "only_u", "only_F", "const"]))
+    if story:
+        rel = ["cmp", draw(st.sampled_from([">=", "<=", ">", "=="])), ["attr", ["var", 1], draw(st.sampled_from(["a", "b"]))],
+               ["attr", ["var", u], draw(st.sampled_from(["a", "b"]))]]
+        c = ["or", "nary", [leaf(draw, ctx, [0]), rel]]
+        if chance(draw, 1, 4):
+            c[2].reverse()
+    elif klass == "both":
+        shape = draw(st.sampled_from(["leaf", "or", "and", "tree", "not"] + (["or_two_free"] * 2 if nF == 2 else [])))
         x = draw(st.sampled_from(frees))
         if shape == "leaf":
             c = leaf(draw, ctx, [x, u])
@@ -71,6 +82,12 @@ def _case(draw, tier):
                 c[2].reverse()
         elif shape == "and":
             c = ["and", "nary", [leaf(draw, ctx, [x, u]), draw(st.sampled_from([leaf(draw, ctx, [x]), leaf(draw, ctx, [u]), leaf(draw, ctx, [x, u])]))]]
+            if draw(st.booleans()):
+                c[2].reverse()
+        elif shape == "or_two_free":
+            # a disjunction whose operands are about DIFFERENT free variables (one of which may then be projected away)
+            y = 1 - x
+            c = ["or", "nary", [leaf(draw, ctx, draw(st.sampled_from([[x], [x, u]]))), leaf(draw, ctx, [y, u])]]
             if draw(st.booleans()):
                 c[2].reverse()
         elif shape == "not":
@@ -97,7 +114,9 @@ def _case(draw, tier):
         cond = ["and", "nary", [d, fa] if combine != "d_last" else [fa, d]]
         split = combine == "top_level"
     order = list(draw(st.permutations(frees)))
-    if nF == 2 and chance(draw, 1, 4):
+    if story:
+        order = [0]
+    elif nF == 2 and chance(draw, 1, 3):
         order = order[:1]        # projection onto one of the two free variables (compared as a set)
     sel = [["var", v] for v in order]
     case = {"ents": recs, "doms": doms, "vars": vars_, "cond": cond, "sel": sel,
